@@ -64,7 +64,14 @@ Record state := { dir : fileset;                        (* the magefiles now on 
 (* what lies at the output path of `mage -compile <path>` before the invocation *)
 Inductive outfile := OAbsent | OOther (* some unrelated file *) | OOld (* the binary an earlier -compile left there *).
 
+(* something happens to the sources WHILE an invocation is under way, after mage has hashed the
+   magefiles (ExeName) and before it runs the binary: a magefile or an imported package is edited *)
+Inductive race := REdit (f b : string) | REditDep (b : string).
+
 Inductive op :=
+| RunRaced (hashfast force gocache : bool) (e : race) (seen_new : bool)
+                                     (* an invocation during which e happens; [seen_new]: the go tool read the
+                                        sources after the edit (the adversary's choice: an outcome SET) *)
 | CompileOut (o : outfile) (hashfast force gocache : bool)
                                      (* mage [-f] -compile <path>, <path> holding o; the output path is not a cache entry *)
 | Edit (f b : string)                (* overwrite the contents of f *)
@@ -153,6 +160,38 @@ Definition invoke_compile : state -> outfile -> bool -> bool -> bool -> outcome 
 
 Definition with_dir (st : state) (d : fileset) : state := {| dir := d; dep := dep st; ver := ver st; cache := cache st |}.
 
+(* An invocation raced by an edit.  The name was derived from the files as they were when ExeName
+   read them; the reuse decision is made with that name; a build stores what the go tool compiled -
+   the old or the new sources - UNDER THAT (OLD) NAME; afterwards the sources are the edited ones.
+   [settle = true] is a design that derives the name again after the build and files the binary
+   under the name of the contents then on disk (seeded change C08-8A); the code does not. *)
+Definition apply_race (st : state) (e : race) : state :=
+  match e with
+  | REdit f b => with_dir st (set_file f b (dir st))
+  | REditDep b => {| dir := dir st; dep := b; ver := ver st; cache := cache st |}
+  end.
+
+Definition invoke_raced_f (settle : bool) (st : state) (hashfast force gocache : bool) (e : race) (seen_new : bool)
+  : state * outcome :=
+  let st' := apply_race st e in
+  match dir st with
+  | [] => (st', NoFiles)
+  | _ =>
+      let n := exe_name tpl (ver st) (dir st) in
+      let src := if seen_new then st' else st in
+      let p := compile (ver st) (dep src) (dir src) in
+      let n_store := if settle then exe_name tpl (ver st) (dir st') else n in
+      let build := ({| dir := dir st'; dep := dep st'; ver := ver st; cache := (n_store, p) :: cache st |}, Ran true p) in
+      let useCache := if hashfast then false else gocache in
+      if negb useCache then
+        match lookup n (cache st) with
+        | Some q => if force then build else (st', Ran false q)
+        | None => build
+        end
+      else build
+  end.
+Definition invoke_raced := invoke_raced_f false.
+
 Definition step (st : state) (o : op) : state * outcome :=
   match o with
   | Edit f b => (with_dir st (set_file f b (dir st)), NoRun)
@@ -162,6 +201,7 @@ Definition step (st : state) (o : op) : state * outcome :=
   | EditDep b => ({| dir := dir st; dep := b; ver := ver st; cache := cache st |}, NoRun)
   | SetVer v => ({| dir := dir st; dep := dep st; ver := v; cache := cache st |}, NoRun)
   | Run hf force gc => invoke st hf force gc
+  | RunRaced hf force gc e sn => invoke_raced st hf force gc e sn
   | CompileOut o hf force gc => (st, invoke_compile st o hf force gc)        (* directory and cache untouched *)
   end.
 
